@@ -176,6 +176,8 @@ def l_sx(l):
         return "(vec%s)" % "".join(" " + l_sx(e) for e in l[1])
     if k in ("lnone", "ident"):
         return "(%s)" % k
+    if k == "lswap":
+        return "(lswap %s %s)" % (l_sx(l[1]), l_sx(l[2]))
     return "(%s %s)" % (k, l_sx(l[1]))
 
 
@@ -202,6 +204,27 @@ def l_coq(l):
     if k == "ident":
         return "Identity"
     raise ValueError(k)
+
+
+def l_phase(l, ph):
+    """the tree a stack holds in observation phase ph: ("lswap", v0, v1) is a reload::Subscriber holding v0 (phase 0, while
+    the stack is built and first observed) and v1 after Handle::reload (phase 1)"""
+    k = l[0]
+    if k == "lswap":
+        return ("lreload", l_phase(l[1 + ph], ph))
+    if k == "vec":
+        return ("vec", [l_phase(e, ph) for e in l[1]])
+    if k == "pair":
+        return ("pair", l_phase(l[1], ph), l_phase(l[2], ph))
+    if k == "filt":
+        return ("filt", l_phase(l[1], ph), l[2])
+    if k in ("lsome", "lbox", "lreload"):
+        return (k, l_phase(l[1], ph))
+    return l
+
+
+def has_swap(l):
+    return l[0] == "lswap" or any(has_swap(e) for e in l_children(l))
 
 
 def s_sx(layers):
@@ -448,18 +471,56 @@ class Gen:
         r.shuffle(layers)
         return layers[:4]
 
+    def swap_stack(self, nctx):
+        """a layer of a live stack is reloaded: reload::Subscriber<Box<dyn Subscribe>> holds V0 while the stack is built
+        (V0 may be a Filtered: its FilterId is registered then), summaries and deliveries are observed, then
+        Handle::reload(V1) and everything is observed again.  V1 never contains a Filtered (a Filtered that is reloaded in
+        never gets on_subscribe: the documented restriction of reload); after the swap the stack must be sound."""
+        r = self.r
+
+        def rec():
+            self.rec_id += 1
+            return ("rec", self.rec_id)
+
+        def filt():
+            return ("filt", rec(), r.choice([("lvl", self.lvl()), ("lvl", r.choice([0, 1, 2])), ("tgt", [("b", self.lvl())]),
+                                             ("not", ("lvl", self.lvl()))]))
+
+        def v0():
+            k = r.choice(["filt", "filt", "filt", "rec", "lnone", "glob", "vec0", "pairf", "vecf"])
+            return {"filt": filt, "rec": rec, "lnone": lambda: ("lnone",), "glob": lambda: ("glob", ("lvl", self.lvl())),
+                    "vec0": lambda: ("vec", []), "pairf": lambda: ("pair", filt(), filt()),
+                    "vecf": lambda: ("vec", [filt(), filt()])}[k]()
+
+        def v1():
+            k = r.choice(["rec", "rec", "rec", "lnone", "glob", "ident", "vec0", "pairg", "some"])
+            return {"rec": rec, "lnone": lambda: ("lnone",), "glob": lambda: ("glob", ("lvl", self.lvl())),
+                    "ident": lambda: ("ident",), "vec0": lambda: ("vec", []),
+                    "pairg": lambda: ("pair", rec(), ("glob", ("lvl", self.lvl()))), "some": lambda: ("lsome", rec())}[k]()
+
+        sw = ("lswap", v0(), v1())
+        if r.random() < 0.25:
+            sw = r.choice([("lbox", sw), ("lsome", sw), ("pair", sw, rec()), ("pair", filt(), sw), ("vec", [sw, filt()])])
+        layers = [sw]
+        for _ in range(r.choice([1, 1, 2, 2, 3])):
+            layers.append(r.choice([filt, filt, filt, rec, lambda: ("glob", ("lvl", self.lvl())), lambda: ("lnone",)])())
+        r.shuffle(layers)
+        return layers[:4]
+
     def stack_case(self, malformed=False):
         r = self.r
         sp = self.spans()
         self.rec_id = 0
         if not malformed and r.random() < 0.12:
             return {"kind": "S", "spans": sp, "expr": self.marker_stack(len(sp) + 1)}
+        if not malformed and r.random() < 0.07:
+            return {"kind": "S", "spans": sp, "expr": self.swap_stack(len(sp) + 1)}
         n = r.choice([1, 1, 2, 2, 2, 3, 3, 4])
         layers = [self.layer(r.choice([0, 1, 1, 2, 2, 3]), len(sp) + 1, malformed) for _ in range(n)]
         return {"kind": "S", "spans": sp, "expr": layers}
 
 
-LAYER_KINDS = ("rec", "glob", "filt", "pair", "lsome", "lnone", "vec", "lbox", "lreload", "ident")
+LAYER_KINDS = ("rec", "glob", "filt", "pair", "lsome", "lnone", "vec", "lbox", "lreload", "lswap", "ident")
 FILTER_KINDS = ("lvl", "tgt", "env", "fn", "dyn", "and", "or", "not", "some", "none", "box", "arc", "reload")
 
 
@@ -467,7 +528,7 @@ def l_children(l):
     k = l[0]
     if k == "vec":
         return list(l[1])
-    if k == "pair":
+    if k in ("pair", "lswap"):
         return [l[1], l[2]]
     if k in ("filt", "lsome", "lbox", "lreload"):
         return [l[1]]
@@ -619,15 +680,21 @@ REQ = ("From Coq Require Import List NArith String.\nImport ListNotations.\nFrom
 
 def model_eval(ctx, cases, chunk=12):
     terms = []
-    for kind, fn, pr in (("F", "eval_filter", f_coq), ("S", "eval_stack", s_coq)):
-        cs = [c for c in cases if c["kind"] == kind]
+
+    def group(c):
+        return "W" if c["kind"] == "S" and any(has_swap(l) for l in c["expr"]) else c["kind"]
+
+    def swap_coq(layers):
+        return "%s %s" % (s_coq([l_phase(l, 0) for l in layers]), s_coq([l_phase(l, 1) for l in layers]))
+    for kind, fn, pr in (("F", "eval_filter", f_coq), ("S", "eval_stack", s_coq), ("W", "eval_swap", swap_coq)):
+        cs = [c for c in cases if group(c) == kind]
         for i in range(0, len(cs), chunk):
             part = cs[i:i + chunk]
             terms.append(((kind, i), "[%s]" % "; ".join("%s %s %s" % (fn, pr(c["expr"]), ctx_coq(c["spans"])) for c in part)))
     res = coq_eval(ctx, REQ, terms, tag="cases")
     out = {}
-    for kind in ("F", "S"):
-        cs = [c for c in cases if c["kind"] == kind]
+    for kind in ("F", "S", "W"):
+        cs = [c for c in cases if group(c) == kind]
         for i in range(0, len(cs), chunk):
             for c, r in zip(cs[i:i + chunk], res[(kind, i)]):
                 out[c["id"]] = r
@@ -833,73 +900,85 @@ def run(ctx):
         disagree = []
         n_data = 0
         for c in cases:
-            o = obs[c["id"]]
+            o_all = obs[c["id"]]
             line = case_line(c)
             nctx = len(c["spans"]) + 1
-            if o["k"] == "panic":
-                rep.violation("the harness panicked on a case: %s" % o["msg"][:160], {"case": line, "profile": prof})
+            if o_all["k"] == "panic":
+                rep.violation("the harness panicked on a case: %s" % o_all["msg"][:160], {"case": line, "profile": prof})
                 continue
-            mo = model[c["id"]] if model is not None else None
-            if c["kind"] == "F":
-                filters = [c["expr"]]
-                bad = oracle_filter(c, o)
-                n_data += NPOOL * (1 + nctx) + 1
-                if f_depth(c["expr"]) >= 2 and len(f_kinds(c["expr"], set()) & {"lvl", "tgt", "env", "fn", "dyn"}) >= 2:
-                    rep.nontrivial.add(line)
+            mo_all = model[c["id"]] if model is not None else None
+            # views: one per observation phase.  A stack with an `lswap` layer is observed twice: while the
+            # reload::Subscriber holds V0 (`pre`) and after Handle::reload(V1) on the live stack (`post`)
+            if c["kind"] == "S" and "pre" in o_all:
+                views = [("before the reload", o_all["pre"], mo_all[0] if mo_all is not None else None, [l_phase(l, 0) for l in c["expr"]]),
+                         ("after the reload", o_all, mo_all[1] if mo_all is not None else None, [l_phase(l, 1) for l in c["expr"]])]
+                rep.count("swap-cases")
             else:
-                filters = [f for l in c["expr"] for f in l_filters(l)]
-                bad = oracle_stack(c, o)
-                n_data += NPOOL * (1 + 3 * nctx) + 1
-                ks = set()
-                for l in c["expr"]:
-                    l_kinds(l, ks)
-                if "glob" in ks and "filt" in ks:
-                    rep.nontrivial.add(line)
-            rep.evaluations += NPOOL * nctx
-            dis, dkeys = [], set()
-            if mo is not None:
-                dis, dkeys = compare_filter(c, o, mo) if c["kind"] == "F" else compare_stack(c, o, mo)
-                if dis:
-                    disagree.append({"case": line, "first": dis[0], "n": len(dis)})
-                if c["kind"] == "S" and not mo[4][2][2]:
-                    disagree.append({"case": line, "first": {"what": "model: interest pass leaves FilterState::interest set"}, "n": 1})
-            if not bad:
-                continue
-            # outside the property's domain: dishonest user closures (LeafOK), reload around a Filtered (documented)
-            if not all(leaf_ok(f, nctx) for f in filters):
-                rep.count("excluded:LeafOK-violated")
-                continue
-            reported = set()
-            for kind, i, k in bad:
-                if kind == "hint" and mo is not None and c["kind"] == "S" and mo[4][2][1]:
-                    if (kind, "reload") not in reported:
-                        rep.count("excluded:reload-around-Filtered(hint)")
-                        reported.add((kind, "reload"))
+                views = [(None, o_all, mo_all, c["expr"])]
+            for phase, o, mo, expr in views:
+                if c["kind"] == "F":
+                    filters = [expr]
+                    bad = oracle_filter(c, o)
+                    n_data += NPOOL * (1 + nctx) + 1
+                    if f_depth(expr) >= 2 and len(f_kinds(expr, set()) & {"lvl", "tgt", "env", "fn", "dyn"}) >= 2:
+                        rep.nontrivial.add(line)
+                else:
+                    filters = [f for l in expr for f in l_filters(l)]
+                    bad = oracle_stack(c, o)
+                    n_data += NPOOL * (1 + 3 * nctx) + 1
+                    ks = set()
+                    for l in expr:
+                        l_kinds(l, ks)
+                    if "glob" in ks and "filt" in ks:
+                        rep.nontrivial.add(line)
+                rep.evaluations += NPOOL * nctx
+                dis, dkeys = [], set()
+                if mo is not None:
+                    dis, dkeys = compare_filter(c, o, mo) if c["kind"] == "F" else compare_stack(c, o, mo)
+                    if dis:
+                        disagree.append({"case": line, "phase": phase, "first": dis[0], "n": len(dis)})
+                    if c["kind"] == "S" and not mo[4][2][2]:
+                        disagree.append({"case": line, "phase": phase, "first": {"what": "model: interest pass leaves FilterState::interest set"}, "n": 1})
+                if not bad:
                     continue
-                # a violation is attributed to a known finding only if the model agrees with the implementation on
-                # the data it is about and the failing (case, metadata) lies in that finding's class
-                fid = None
-                if mo is not None and model_agrees_on(dkeys, kind, i, k):
-                    cl = classes_of(c, mo, i)
-                    for cand in KIND_CLASSES[kind]:
-                        if cand in cl:
-                            fid = cand
-                            break
-                if (kind, fid) in reported:
+                # outside the property's domain: dishonest user closures (LeafOK), reload around a Filtered (documented)
+                if not all(leaf_ok(f, nctx) for f in filters):
+                    rep.count("excluded:LeafOK-violated")
                     continue
-                reported.add((kind, fid))
-                rep.count("oracle:%s:%s" % (kind, fid or "UNEXPLAINED"))
-                m = POOL[i]
-                what = {"never": "summary says `never` for a callsite that is accepted when asked dynamically",
-                        "always": "summary says `always` for a callsite that can be rejected when asked dynamically",
-                        "hint": "max-level hint below a level that is accepted when asked dynamically"}[kind]
-                rep.violation("%s [%s %s]" % (what, "filter" if c["kind"] == "F" else "stack", fid or "no known class"),
-                              {"case": line, "metadata": m, "context": k, "span_context": c["spans"][:k], "profile": prof,
+                reported = set()
+                for kind, i, k in bad:
+                    if kind == "hint" and mo is not None and c["kind"] == "S" and mo[4][2][1]:
+                        if (kind, "reload") not in reported:
+                            rep.count("excluded:reload-around-Filtered(hint)")
+                            reported.add((kind, "reload"))
+                        continue
+                    # a violation is attributed to a known finding only if the model agrees with the implementation on
+                    # the data it is about and the failing (case, metadata) lies in that finding's class
+                    fid = None
+                    if mo is not None and model_agrees_on(dkeys, kind, i, k):
+                        cl = classes_of(c, mo, i)
+                        for cand in KIND_CLASSES[kind]:
+                            if cand in cl:
+                                fid = cand
+                                break
+                    if (kind, fid) in reported:
+                        continue
+                    reported.add((kind, fid))
+                    rep.count("oracle:%s:%s" % (kind, fid or "UNEXPLAINED"))
+                    m = POOL[i]
+                    what = {"never": "summary says `never` for a callsite that is accepted when asked dynamically",
+                            "always": "summary says `always` for a callsite that can be rejected when asked dynamically",
+                            "hint": "max-level hint below a level that is accepted when asked dynamically"}[kind]
+                    payload = {"case": line, "metadata": m, "context": k, "span_context": c["spans"][:k], "profile": prof,
                                "published": {"interest": o["int"][i], "hint": o["hint"]},
                                "observed": (o["acc"][k][i] if c["kind"] == "F" else
                                             {"enabled": o["ctx"][k]["en"][i], "received_by": o["ctx"][k]["recv"][i],
                                              "received_without_enabled": o["ctx"][k]["direct"][i]}),
-                               "replay": "echo '%s' | .cache/target-repo/debug/h_summary" % line}, finding=fid)
+                               "replay": "echo '%s' | .cache/target-repo/debug/h_summary" % line}
+                    if phase:
+                        payload["phase"] = phase
+                    rep.violation("%s [%s %s%s]" % (what, "filter" if c["kind"] == "F" else "stack", fid or "no known class",
+                                                   (", " + phase) if phase else ""), payload, finding=fid)
         if model is not None:
             rep.tie("correspondence:" + prof, not disagree, "%d of %d cases disagree" % (len(disagree), len(cases)), disagree[:1] or None)
             rep.traces_validated += n_data
